@@ -22,3 +22,7 @@ Proof. exact lex_one. Qed.
 (* integers of any magnitude: reading the decimal text of n gives n *)
 Theorem C06_int_exact : forall n, parse_dec (dec n) = Some n.
 Proof. exact int_roundtrip. Qed.
+
+(* non-vacuity: a clean string with an apostrophe, a double quote, a semicolon and a line feed; quoting doubles the apostrophe *)
+Example C06_premise_satisfiable : clean [105; 116; 39; 115; 32; 34; 59; 10] = true /\ quote SQ [105; 116; 39; 115] = [39; 105; 116; 39; 39; 115; 39].
+Proof. vm_compute. auto. Qed.
